@@ -83,14 +83,14 @@ struct Run<E: Engine> {
     ctx: CtxSpec,
 }
 
-/// Pedersen generators, possibly degenerate: `h_as_last`: g_last = h; `dup01`: g_1 = g_0
-fn pedersen<E: Engine>(ext: usize, h_as_last: bool, dup01: bool) -> PedersenGens<E::P> {
+/// Pedersen generators, possibly degenerate: `h_as_last`: g_last = h; `dup`: g_{k2} = g_{k1}
+fn pedersen<E: Engine>(ext: usize, h_as_last: bool, dup: Option<(usize, usize)>) -> PedersenGens<E::P> {
     let (h, mut g) = <E::P as Grp>::pedersen(ext);
     if h_as_last {
         g[ext - 1] = h.clone();
     }
-    if dup01 && ext >= 2 {
-        g[1] = g[0].clone();
+    if let Some((k1, k2)) = dup {
+        g[k2] = g[k1].clone();
     }
     PedersenGens {
         h_base: h.clone(),
@@ -99,6 +99,16 @@ fn pedersen<E: Engine>(ext: usize, h_as_last: bool, dup01: bool) -> PedersenGens
         g_base_vec: g,
         extension_degree: ext_of(ext),
     }
+}
+
+/// the two blinding components between which a same-commitment split is made (generated from `delta`)
+pub fn split_pair(delta: u64, ext: usize) -> (usize, usize) {
+    let k1 = (delta >> 1) as usize % ext;
+    let mut k2 = (delta >> 9) as usize % ext;
+    if k2 == k1 {
+        k2 = (k1 + 1) % ext;
+    }
+    (k1, k2)
 }
 
 fn build_runs<E: Engine>(spec: &HedgeSpec) -> Result<(Run<E>, Run<E>, Diff, PedersenGens<E::P>, Triple<E>), String> {
@@ -133,10 +143,10 @@ fn build_runs<E: Engine>(spec: &HedgeSpec) -> Result<(Run<E>, Run<E>, Diff, Pede
             });
         }
     }
-    let (h_as_last, dup01) = match diff {
-        Diff::WitnessValue(_) => (true, false),
-        Diff::WitnessBlinding(_) => (false, true),
-        _ => (false, false),
+    let (h_as_last, dup) = match diff {
+        Diff::WitnessValue(_) => (true, None),
+        Diff::WitnessBlinding(_) => (false, Some(split_pair(spec.delta, cfg.ext))),
+        _ => (false, None),
     };
     match &diff {
         Diff::Nothing | Diff::WitnessValue(_) => {},
@@ -164,11 +174,12 @@ fn build_runs<E: Engine>(spec: &HedgeSpec) -> Result<(Run<E>, Run<E>, Diff, Pede
         },
         Diff::WitnessBlinding(j) => {
             let j = pick(*j, cfg.m);
-            r2[j][0] += delta;
-            r2[j][1] -= delta;
+            let (k1, k2) = split_pair(spec.delta, cfg.ext);
+            r2[j][k1] += delta;
+            r2[j][k2] -= delta;
         },
     }
-    let pc = pedersen::<E>(cfg.ext, h_as_last, dup01);
+    let pc = pedersen::<E>(cfg.ext, h_as_last, dup);
     let params = RangeParameters::init(cfg.bits, cfg.cap, pc.clone()).map_err(|e| format!("{:?}", e))?;
     let mk = |vals: &[u64], blinds: &[Vec<Scalar>], proms: &[Option<u64>], ctx: &CtxSpec| -> Result<Run<E>, String> {
         let cs: Vec<E::P> = vals
@@ -201,7 +212,10 @@ pub fn oracle_f(_ctx: &RunCtx, spec: &HedgeSpec, log: &mut CaseLog) -> Result<()
     // distinct readable blinding-generator coordinates
     let (g_ids, a_extra): (Vec<u128>, Option<u128>) = match diff {
         Diff::WitnessValue(_) => ((0..cfg.ext - 1).map(g_id).collect(), Some(H_ID)),
-        Diff::WitnessBlinding(_) => (std::iter::once(g_id(0)).chain((2..cfg.ext).map(g_id)).collect(), None),
+        Diff::WitnessBlinding(_) => {
+            let (_, k2) = split_pair(spec.delta, cfg.ext);
+            ((0..cfg.ext).filter(|k| *k != k2).map(g_id).collect(), None)
+        },
         _ => ((0..cfg.ext).map(g_id).collect(), None),
     };
     let prove = |r: &Run<F>| -> Result<(Vec<u8>, Nonces), String> {
@@ -329,6 +343,112 @@ pub fn oracle_r(_ctx: &RunCtx, spec: &HedgeSpec, log: &mut CaseLog) -> Result<()
     Ok(())
 }
 
+/// RNG that replays recorded bytes (what a failed external RNG handed to the prover is known to the adversary)
+struct FixedRng(Vec<u8>, usize);
+impl rand_core::RngCore for FixedRng {
+    fn next_u32(&mut self) -> u32 {
+        let mut b = [0u8; 4];
+        self.fill_bytes(&mut b);
+        u32::from_le_bytes(b)
+    }
+
+    fn next_u64(&mut self) -> u64 {
+        let mut b = [0u8; 8];
+        self.fill_bytes(&mut b);
+        u64::from_le_bytes(b)
+    }
+
+    fn fill_bytes(&mut self, dest: &mut [u8]) {
+        for d in dest.iter_mut() {
+            *d = self.0.get(self.1).copied().unwrap_or(0);
+            self.1 += 1;
+        }
+    }
+
+    fn try_fill_bytes(&mut self, dest: &mut [u8]) -> Result<(), rand_core::Error> {
+        self.fill_bytes(dest);
+        Ok(())
+    }
+}
+impl rand_core::CryptoRng for FixedRng {}
+
+fn static_label(l: &[u8]) -> &'static [u8] {
+    const KNOWN: [&[u8]; 17] = [
+        b"dom-sep", b"H", b"G", b"N", b"T", b"M", b"Ci", b"vi - minimum_value", b"A", b"y", b"z", b"L", b"R", b"e", b"A1", b"B", b"rng",
+    ];
+    for k in KNOWN {
+        if k == l {
+            return k;
+        }
+    }
+    Box::leak(l.to_vec().into_boxed_slice())
+}
+
+/// "Never computable from public data alone": an adversary who knows the whole public transcript and what the failed RNG
+/// returned rebuilds, at every point where the prover rebuilt its RNG, the transcript RNG WITHOUT the witness, and draws
+/// from it. None of the prover's RNG-derived nonces may be among those draws.
+pub fn public_oracle(_ctx: &RunCtx, spec: &HedgeSpec, log: &mut CaseLog) -> Result<(), String> {
+    use crate::tapx::Event;
+    F::reset_case();
+    let t = Triple::<F>::build(&spec.base)?;
+    let cfg = t.cfg;
+    let g_ids: Vec<u128> = (0..cfg.ext).map(g_id).collect();
+    let start = t.transcript();
+    let mut tr = start.clone();
+    let (p, ev) = tapped(|| guarded(|| F::prove(&mut tr, &t.st, &t.w, &mut spec.base.rng.make())));
+    let p = p?.map_err(|e| format!("prover refused a valid witness: {:?}", e))?;
+    let nonces = extract(&p.to_bytes(), &challenges(&ev), &g_ids, cfg.bits, None)?;
+    // adversary
+    let mut adv = start;
+    let mut candidates: Vec<(usize, Scalar)> = vec![];
+    let mut builds = 0usize;
+    for e in &ev {
+        match e {
+            Event::Append { label, data } => adv.append_message(static_label(label), data),
+            Event::Challenge { label, out } => {
+                let mut buf = vec![0u8; out.len()];
+                adv.challenge_bytes(static_label(label), &mut buf);
+                if &buf != out {
+                    return Err(format!("{} replay of the public transcript diverges from the prover's", crate::runner::INCONCLUSIVE));
+                }
+            },
+            Event::Finalize { external } => {
+                builds += 1;
+                let mut rng = adv.build_rng().finalize(&mut FixedRng(external.clone(), 0));
+                for _ in 0..(2 * cfg.ext + 4) {
+                    candidates.push((builds, Scalar::random(&mut rng)));
+                }
+            },
+            _ => {},
+        }
+    }
+    if builds == 0 {
+        return Err(format!("{} the prover never finalised a transcript RNG", crate::runner::INCONCLUSIVE));
+    }
+    let mine: Vec<(String, Scalar)> = if t.seed.is_some() {
+        vec![("r".into(), nonces.r), ("s".into(), nonces.s)]
+    } else {
+        nonces.all()
+    };
+    for (name, v) in &mine {
+        if let Some((b, _)) = candidates.iter().find(|(_, c)| c == v) {
+            return Err(format!(
+                "nonce {} is computable from public data and the output of the (failed) RNG alone: it equals a draw from the un-keyed transcript RNG at rebuild #{} of {} (aggregation {}, degree {})",
+                name, b, builds, cfg.m, cfg.ext
+            ));
+        }
+    }
+    log.label("engine=F");
+    log.label(format!("public:fault={}", spec.base.rng.class()));
+    log.label(format!("public:seed={}", t.seed.is_some()));
+    log.label(format!("public:rng-rebuilds={}", builds.min(12)));
+    log.labels(t.classes());
+    log.nontrivial(&(cfg, spec.base.rng.class(), t.seed.is_some(), spec.base.bulk));
+    log.sample(json!({"engine": "F", "kind": "public recomputation", "cfg": cfg, "fault": spec.base.rng, "rng_rebuilds": builds,
+        "adversary_draws": candidates.len(), "nonces_checked": mine.len()}));
+    Ok(())
+}
+
 fn hedge_strategy(max: usize, maxm: usize) -> impl Strategy<Value = HedgeSpec> {
     (triple_strategy(cfg_strategy(max, maxm)), fault_strategy(), diff_strategy(), any::<u64>()).prop_map(|(mut base, rng, diff, delta)| {
         base.rng = rng;
@@ -344,6 +464,13 @@ fn subs() -> Vec<Sub> {
             (30_000, 400_000),
             |ctx: &RunCtx, _: Option<&()>| hedge_strategy(if ctx.tier == Tier::Quick { 256 } else { 1024 }, 16),
             oracle_f,
+        ),
+        sub(
+            "F/public-recomputation",
+            no_fixed,
+            (8000, 100_000),
+            |ctx: &RunCtx, _: Option<&()>| hedge_strategy(if ctx.tier == Tier::Quick { 256 } else { 1024 }, 32),
+            public_oracle,
         ),
         sub(
             "R/fault-x-difference",
@@ -363,9 +490,9 @@ pub fn def() -> PropertyDef {
         rule: "Fault models of the external RNG {all-zero, constant byte, 8-byte period, counter, replayed ChaCha stream} x a pair of prover runs \
                fed the SAME faulty stream and differing in exactly one of {nothing, transcript context, one promise, one commitment (other \
                blinding), witness value with the SAME commitment (blinding generator g_last := h, so (v; r_last) and (v+-1; r_last-+1) collide), \
-               witness blinding split with the SAME commitment (g_1 := g_0)} at a generated position of the aggregate, with and without a seed. \
+               witness blinding split between two generated components k1, k2 with the SAME commitment (g_k2 := g_k1)} at a generated position of the aggregate, with and without a seed. \
                Engine F reads every nonce as a coordinate (see C13). Oracle: 'nothing' => byte-identical proofs; otherwise the RNG-derived \
-               nonces (all of them without a seed; r and s with one) of the two runs are pairwise different. Engine R cross-check: for context / \
+               nonces (all of them without a seed; r and s with one) of the two runs are pairwise different. Second oracle (engine F), 'never computable from public data alone': an adversary who knows the public transcript and the failed RNG's output rebuilds, at every rebuild point, the transcript RNG without the witness and draws from it; no RNG-derived nonce of the proof may be among those draws. Engine R cross-check: for context / \
                blinding-split differences no proof element may be byte-identical across the runs. Non-trivial = a one-field difference; distinct \
                by (fault model, difference kind, seed?, configuration, case)."
             .into(),
